@@ -17,6 +17,8 @@ pub mod c30;
 pub mod c05;
 pub mod c07;
 pub mod c31;
+pub mod c17;
+pub mod c32;
 
 pub fn for_property(p: &str) -> Vec<Suite> {
     match p {
@@ -39,9 +41,6 @@ pub fn for_property(p: &str) -> Vec<Suite> {
         "C05" => c05::suites(),
         "C07" => c07::suites(),
         "C31" => c31::suites(),
-pub mod c17;
-pub mod c32;
-
         "C17" => c17::suites(),
         "C32" => c32::suites(),
         _ => vec![],
